@@ -375,7 +375,7 @@ package controller
 //@ ghost Jerr [int]iface
 //@ func TryDeleteNodes(c, opts, toBeDeleted) (n, err)
 //@   requires c != nil && opts.nodeGroup != nil && c.Client != nil && c.cloudProvider != nil && nodesOK(toBeDeleted) && k8s.infoMapOK(opts.nodeGroup.NodeInfoMap)
-//@   modifies Jlen, Jkind, Jname, Jnode, Jok, Jerr
+//@   modifies Jlen, Jkind, Jname, Jnode, Jok, Jerr, TGT
 //@   ensures [C19] forall k :: old(Jlen) <= k && k < Jlen && Jkind[k] == C_DELNODE && isNotInGroup(Jerr[k]) ==> isNotInGroup(err)
 //@   ensures Jlen >= old(Jlen) && jprefix(old(Jlen))
 //@   ensures len(toBeDeleted) == 0 ==> Jlen == old(Jlen) && err == nil
@@ -394,7 +394,7 @@ package controller
 //@   requires c != nil && opts.nodeGroup != nil && c.Client != nil && c.cloudProvider != nil && k8s.named(opts.taintedNodes)
 //@   requires k8s.infoMapOK(opts.nodeGroup.NodeInfoMap) && durCacheOK(optsOf(opts.nodeGroup))
 //@   requires [C01,C09,C10,C12] !dry(c, opts.nodeGroup) ==> allT(opts.taintedNodes)
-//@   modifies Jlen, Jkind, Jname, Jnode, Jok, Jerr, clock, opts.nodeGroup.Opts.softDeleteGracePeriodDuration, opts.nodeGroup.Opts.hardDeleteGracePeriodDuration
+//@   modifies Jlen, Jkind, Jname, Jnode, Jok, Jerr, TGT, clock, opts.nodeGroup.Opts.softDeleteGracePeriodDuration, opts.nodeGroup.Opts.hardDeleteGracePeriodDuration
 //@   ensures [C19] forall k :: old(Jlen) <= k && k < Jlen && Jkind[k] == C_DELNODE && isNotInGroup(Jerr[k]) ==> isNotInGroup(err)
 //@   ensures Jlen >= old(Jlen) && jprefix(old(Jlen)) && clock >= old(clock) && durCacheOK(optsOf(opts.nodeGroup))
 //@   ensures [C11] dry(c, opts.nodeGroup) ==> Jlen == old(Jlen)
@@ -414,7 +414,7 @@ package controller
 //@   requires c != nil && opts.nodeGroup != nil && c.Client != nil && c.cloudProvider != nil && k8s.named(opts.forceTaintedNodes)
 //@   requires k8s.infoMapOK(opts.nodeGroup.NodeInfoMap)
 //@   requires [C01,C09,C10,C12] !dry(c, opts.nodeGroup) ==> allF(opts.forceTaintedNodes)
-//@   modifies Jlen, Jkind, Jname, Jnode, Jok, Jerr
+//@   modifies Jlen, Jkind, Jname, Jnode, Jok, Jerr, TGT
 //@   ensures [C19] forall k :: old(Jlen) <= k && k < Jlen && Jkind[k] == C_DELNODE && isNotInGroup(Jerr[k]) ==> isNotInGroup(err)
 //@   ensures Jlen >= old(Jlen) && jprefix(old(Jlen))
 //@   ensures [C11] dry(c, opts.nodeGroup) ==> Jlen == old(Jlen)
@@ -431,7 +431,7 @@ package controller
 //@   requires c != nil && opts.nodeGroup != nil && c.Client != nil && c.cloudProvider != nil && k8s.named(opts.taintedNodes) && k8s.named(opts.untaintedNodes) && opts.nodesDelta >= 0
 //@   requires k8s.infoMapOK(opts.nodeGroup.NodeInfoMap) && durCacheOK(optsOf(opts.nodeGroup))
 //@   requires [C01,C09,C10,C12] !dry(c, opts.nodeGroup) ==> allT(opts.taintedNodes) && allU(opts.untaintedNodes)
-//@   modifies Jlen, Jkind, Jname, Jnode, Jok, Jesc, Jerr, clock, nTaintOK, nUntaintOK, getSeen, nGet, nKFail, opts.nodeGroup.taintTracker, elems(opts.nodeGroup.taintTracker), opts.nodeGroup.Opts.softDeleteGracePeriodDuration, opts.nodeGroup.Opts.hardDeleteGracePeriodDuration
+//@   modifies Jlen, Jkind, Jname, Jnode, Jok, Jesc, Jerr, TGT, clock, nTaintOK, nUntaintOK, getSeen, nGet, nKFail, opts.nodeGroup.taintTracker, elems(opts.nodeGroup.taintTracker), opts.nodeGroup.Opts.softDeleteGracePeriodDuration, opts.nodeGroup.Opts.hardDeleteGracePeriodDuration
 //@   ensures [C19] forall k :: old(Jlen) <= k && k < Jlen && Jkind[k] == C_DELNODE && isNotInGroup(Jerr[k]) ==> isNotInGroup(err)
 //@   ensures Jlen >= old(Jlen) && jprefix(old(Jlen)) && clock >= old(clock) && durCacheOK(optsOf(opts.nodeGroup))
 //@   ensures [C11] dry(c, opts.nodeGroup) ==> Jlen == old(Jlen)
@@ -567,7 +567,7 @@ package controller
 //@ func (*Controller).scaleNodeGroup(c, nodegroup, nodeGroup) (delta, err)
 //@   requires c != nil && c.Client != nil && c.cloudProvider != nil && groupInv(nodeGroup)
 //@   requires [C05,C06] 0 <= nodeGroup.Opts.SlowNodeRemovalRate && nodeGroup.Opts.SlowNodeRemovalRate <= nodeGroup.Opts.FastNodeRemovalRate && 0 < nodeGroup.Opts.TaintLowerCapacityThresholdPercent && nodeGroup.Opts.TaintLowerCapacityThresholdPercent < nodeGroup.Opts.TaintUpperCapacityThresholdPercent && nodeGroup.Opts.TaintUpperCapacityThresholdPercent < nodeGroup.Opts.ScaleUpThresholdPercent
-//@   modifies Jlen, Jkind, Jname, Jnode, Jok, Jesc, Jnum, Jerr, clock, nTaintOK, nUntaintOK, getSeen, nGet, nKFail, LNb, LNo, LNl, LNby, LNok, LPb, LPo, LPl, nScans
+//@   modifies Jlen, Jkind, Jname, Jnode, Jok, Jesc, Jnum, Jerr, TGT, clock, nTaintOK, nUntaintOK, getSeen, nGet, nKFail, LNb, LNo, LNl, LNby, LNok, LPb, LPo, LPl, nScans
 //@   ensures nScans == old(nScans) + 1
 //@   ensures forall g2 *NodeGroupState :: allocated(g2) && g2 != nodeGroup && old(groupInv(g2)) ==> groupInv(g2)
 //@   ensures [C19] forall k :: old(Jlen) <= k && k < Jlen && Jkind[k] == C_DELNODE && isNotInGroup(Jerr[k]) ==> isNotInGroup(err)
@@ -624,7 +624,7 @@ package controller
 //@ func (*Controller).RunOnce(c) (err)
 //@   requires ctlInv(c)
 //@   requires [C03] forall i, j :: 0 <= i && i < j && j < len(c.Opts.NodeGroups) ==> c.nodeGroups[c.Opts.NodeGroups[i].Name] != c.nodeGroups[c.Opts.NodeGroups[j].Name]
-//@   modifies Jlen, Jkind, Jname, Jnode, Jok, Jesc, Jnum, Jerr, clock, nTaintOK, nUntaintOK, getSeen, nGet, nKFail, LNb, LNo, LNl, LNby, LNok, LPb, LPo, LPl, nScans, nBuildFail, c.cloudProvider
+//@   modifies Jlen, Jkind, Jname, Jnode, Jok, Jesc, Jnum, Jerr, TGT, clock, nTaintOK, nUntaintOK, getSeen, nGet, nKFail, LNb, LNo, LNl, LNby, LNok, LPb, LPo, LPl, nScans, nBuildFail, c.cloudProvider
 //@   modifies mapvals(c.nodeGroups), allof("[]string")
 //@   ensures [C20] err == nil ==> ctlInv(c)
 //@   ensures [C12,C20] err != nil && nBuildFail == old(nBuildFail) ==> isNotInGroup(err) || isPlainErr(err)
